@@ -339,15 +339,24 @@ def s8(proj, rep, modules=None):
             rep.touch(m)
             # the nearest enclosing If, and the arm we are in
             node, arm_ok, found = c, False, False
+
+            def none_test(t):
+                # -> 'is' / 'isnot' / None for `<seed> is None` / `<seed> is not None`
+                if isinstance(t, ast.Compare) and len(t.ops) == 1 and isinstance(t.comparators[0], ast.Constant) and t.comparators[0].value is None \
+                        and isinstance(t.left, ast.Name) and t.left.id in seedp:
+                    return 'is' if isinstance(t.ops[0], ast.Is) else ('isnot' if isinstance(t.ops[0], ast.IsNot) else None)
+                return None
             while node is not fi.node:
                 par = node._parent
                 if isinstance(par, ast.If) and not found:
                     found = True
                     in_body = any(node is s or any(node is y for y in ast.walk(s)) for s in par.body)
-                    t = par.test
-                    is_none = isinstance(t, ast.Compare) and len(t.ops) == 1 and isinstance(t.ops[0], ast.Is) and isinstance(t.comparators[0], ast.Constant) \
-                        and t.comparators[0].value is None and isinstance(t.left, ast.Name) and t.left.id in seedp
-                    arm_ok = in_body and is_none
+                    k = none_test(par.test)
+                    arm_ok = (in_body and k == 'is') or ((not in_body) and k == 'isnot')
+                elif isinstance(par, ast.IfExp) and not found and node is not par.test:
+                    found = True
+                    k = none_test(par.test)
+                    arm_ok = (node is par.body and k == 'is') or (node is par.orelse and k == 'isnot')
                 node = par
             if arm_ok:
                 rep.ok('S8', fi.qual, f'`{ast.unparse(c)}` only when the seed is None', m, c)
@@ -620,7 +629,7 @@ def dt6(proj, rep, modules=None):
 
 
 # ------------------------------------------------------------------------------------------------ DT4
-RULE_DT4 = ('DT4: a buffer that receives values of the input\'s field (`buf[i] = <item of a sequence derived from the input>`) is not allocated with the default '
+RULE_DT4 = ('DT4: in a function that handles complex data (it conjugates / tests complexness somewhere) a buffer that receives values of the input\'s field (`buf[i] = <item of a sequence derived from the input>`) is not allocated with the default '
             'float64 dtype: `np.empty(shape)` / `np.zeros(shape)` without dtype silently discards the imaginary part of complex items '
             '(ComplexWarning only), where np.stack / np.array keep the item dtype.')
 
@@ -638,6 +647,9 @@ def dt4(proj, rep, modules):
                 continue
             if any(k.arg == 'dtype' for k in s.value.keywords) or len(s.value.args) >= 2:
                 continue
+            src = ast.unparse(fi.node)
+            if not ('conj' in src or 'complex' in src or '1j' in src):
+                continue        # nothing says the function handles complex data
             buf = s.targets[0].id
             # stores of whole items of another sequence: buf[i] = seq[i] / buf[i], other[i] = seq[i]
             for a in ast.walk(fi.node):
@@ -791,7 +803,15 @@ def w8(proj, rep, modules):
         rep.touch(m)
 
         def tainted(e, dep):
+            meta = set()
             for y in ast.walk(e):
+                if isinstance(y, ast.Attribute) and y.attr in ('shape', 'ndim', 'dtype', 'device', 'size'):
+                    meta |= {id(z) for z in ast.walk(y.value)}
+                if isinstance(y, ast.Call) and isinstance(y.func, ast.Name) and y.func.id in ('len', 'isinstance', 'type'):
+                    meta |= {id(z) for a in y.args for z in ast.walk(a)}
+            for y in ast.walk(e):
+                if id(y) in meta:
+                    continue
                 if isinstance(y, ast.Name) and y.id in dep:
                     return True
                 if isinstance(y, ast.Attribute) and isinstance(y.value, ast.Name) and f'{y.value.id}.{y.attr}' in dep:
